@@ -241,6 +241,8 @@ class PureInterp:
         env = dict(closure) if closure else {}
         pos = list(args)
         if finfo.cls is not None and names and names[0] in ("self", "cls") and "staticmethod" not in finfo.decorator_names():
+            if self_obj is None and "classmethod" in finfo.decorator_names():
+                self_obj = finfo.cls
             env[names[0]] = self_obj
             names = names[1:]
         defaults = a.defaults
@@ -1071,6 +1073,20 @@ class PureInterp:
                     args = [self._iterable(args[0]) if b != "len" else (self._as_sequence(args[0]) or args[0])] + list(args[1:])
                 if b == "callable":
                     return isinstance(args[0], (FuncInfo, FuncRef)) or (isinstance(args[0], tuple) and args[0] and args[0][0] in ("lambda", "bound"))
+                if b == "getattr":
+                    o, nm = args[0], args[1]
+                    try:
+                        if isinstance(o, Obj):
+                            node_ = ast.Attribute(value=ast.Name(id="__o__", ctx=ast.Load()), attr=nm, ctx=ast.Load())
+                            return self.e_Attribute(node_, {"__o__": o}, self.index.repo.module("gwf.core"), depth)
+                        return getattr(o, nm)
+                    except (Raised, AttributeError):
+                        if len(args) > 2:
+                            return args[2]
+                        raise Raised("AttributeError", nm)
+                if b == "setattr":
+                    setattr(args[0], args[1], args[2])
+                    return None
                 if b == "hasattr":
                     o = args[0]
                     return (args[1] in o.__dict__["_attrs"]) if isinstance(o, Obj) else hasattr(o, args[1])
@@ -1159,10 +1175,14 @@ class PureInterp:
                     if k.arg == "init" and isinstance(k.value, ast.Constant) and k.value.value is False:
                         init = False
                     if k.arg == "default":
-                        try:
-                            default = self.eval(k.value, {}, cls.module)
-                        except (Unsupported, Raised, CantEval):
-                            default = Ellipsis
+                        # evaluated once, when the class is created: a mutable default is one object shared by all instances
+                        dc = self.__dict__.setdefault("_field_defaults", {})
+                        if (id(cls), name) not in dc:
+                            try:
+                                dc[(id(cls), name)] = self.eval(k.value, {}, cls.module)
+                            except (Unsupported, Raised, CantEval):
+                                dc[(id(cls), name)] = Ellipsis
+                        default = dc[(id(cls), name)]
                     if k.arg in ("factory", "default_factory"):
                         fn = dotted(k.value)
                         default = {"dict": dict, "list": list, "set": set}.get(fn, lambda: None)()
